@@ -68,7 +68,10 @@ def case_strategy():
         lambda t: {"gen": "get_rand_vars", "seed": t[0], "pretty": True, "kwargs": {"exclude_vars": t[1], "common_variables": t[2]}, "n_frac": t[3]}
     )
     split = st.tuples(seeds, st.one_of(st.integers(0, 1000), st.integers(0, 10**30), st.sampled_from([10**15 + 1, 10**18 + 1, 2**53 + 1]))).map(lambda t: {"gen": "split_in_two_random", "seed": t[0], "pretty": True, "kwargs": {"value": t[1]}})
-    return st.one_of(binom("gen_binomial_times_binomial", 4), binom("gen_binomial_times_monomial", 3), simplify, simplify, combine_default, combine, hay, hay_default, b1, b2, grv, split)
+    templ = st.tuples(seeds, st.booleans(), st.integers(1, 8), st.booleans(), prob, st.lists(st.tuples(st.sampled_from(list("xyzab")), st.sampled_from([None, 2, 3])), max_size=4)).map(
+        lambda t: {"gen": "get_rand_term_templates", "seed": t[0], "pretty": t[1], "kwargs": {"num_templates": t[2], "common_variables": t[3], "exponent_probability": t[4], "exclude_like": [list(e) for e in t[5]]}}
+    )
+    return st.one_of(templ, binom("gen_binomial_times_binomial", 4), binom("gen_binomial_times_monomial", 3), simplify, simplify, combine_default, combine, hay, hay_default, b1, b2, grv, split)
 
 
 PROMISES_LIKE_TERMS = {"gen_combine_terms_in_place", "gen_commute_haystack", "gen_move_around_blockers_one", "gen_move_around_blockers_two"}
@@ -136,6 +139,34 @@ def check_case(ctx, case):
             if excl or n == len(avail):
                 ctx.nontriv(key)
             ctx.sample({"gen": name, "n": n, "exclude": excl, "common": common, "got": got}, cap=2, group=name)
+            return
+        if name == "get_rand_term_templates":
+            excl = [P.MathyTermTemplate(variable=v, exponent=e) for v, e in kwargs["exclude_like"]]
+            n = kwargs["num_templates"]
+            if kwargs["common_variables"]:
+                n = min(n, 3)  # three common variables; with exponents more keys exist, but 3 is always satisfiable
+            try:
+                got = P.get_rand_term_templates(n, exclude_like=excl, common_variables=kwargs["common_variables"], exponent_probability=kwargs["exponent_probability"])
+            except EnvironmentError:
+                # documented give-up after 100 failed draws; only legitimate when few keys are available
+                if kwargs["common_variables"] and kwargs["exponent_probability"] < 0.34 and len(excl) >= 1:
+                    ctx.count("templates:gave-up(legitimate)")
+                    return
+                return ctx.fail(("raised", name, "EnvironmentError"), case, {"n": n})
+            except Exception as e:
+                return ctx.fail(("raised", name, type(e).__name__), case, {"error": repr(e)[:200]})
+            keys = [(t.variable, t.exponent) for t in got]
+            banned = {(t.variable, t.exponent) for t in excl}
+            if len(got) != n or len(set(keys)) != n or any(k in banned for k in keys) or any(k[1] == 1 for k in keys):
+                return ctx.fail(("term-templates-wrong",), case, {"n": n, "got": [repr(k) for k in keys], "excluded": [repr(k) for k in banned]})
+            for t in got:
+                txt = t.make()
+                root = E.parse(txt) if txt else None
+                if root is None:
+                    return ctx.fail(("term-template-text-rejected",), case, {"text": txt})
+            if excl:
+                ctx.nontriv(key)
+            ctx.sample({"gen": name, "n": n, "got": [repr(k) for k in keys]}, cap=2, group=name)
             return
         fn = getattr(P, name)
         try:
